@@ -13,7 +13,7 @@ EXPLANATION = ("intercept_request is analysed for an arbitrary request with a pr
                "Block1; a path that sets 4.13 returns Ok(true) with Block1; the splice range starts at num x size of "
                "the request's block, has length size and is fed from the request payload into the per-key buffer; the "
                "negotiated size is a min that includes the client's size; C09.5: the value handed over has length splice offset + "
-               "request payload length (precise Vec::splice length model)")
+               "request payload length (precise Vec::splice length model); from the public entry point every path that answers 2.31 Continue or hands the reassembled body over has spliced the block (C09.12)")
 NOT_DECIDED = ("Not decided: byte-for-byte equality of the delivered body with the bytes sent (decided are: every block is "
                "spliced at num x size from the request payload, and the delivered body is cut at offset + length of the final "
                "block so nothing of an earlier abandoned upload stays behind it); duplicate delivery of a final block.")
